@@ -32,3 +32,6 @@ func VerifWebsocketError(err error) (uint16, string) { return websocketError(err
 func VerifErrorStatus(err error) (*status.Status, int) { return errorStatus(err) }
 
 const VerifHTTPStatusCanceled = httpStatusCanceled
+
+// VerifCloseReason exports closeReason (what ServeHTTP puts into the close frame after websocketError).
+func VerifCloseReason(reason string) string { return closeReason(reason) }
